@@ -135,7 +135,9 @@ void Logger::installMessageHandler()
 
     auto prev = qInstallMessageHandler(messageHandler);
 
-    if (prev != messageHandler) {
+    // Remember only the handler that was active before the first install: a later install
+    // may find a newer foreign handler, which must not replace the one to be restored.
+    if (prev != messageHandler && !g_previousMessageHandler) {
         g_previousMessageHandler = prev;
     }
 }
